@@ -29,7 +29,8 @@ def run(chk):
     chk.mc("Loaders", "MC_Loaders_pinned_asc.cfg", expect_violation="C08_ColumnsAreOccurringSizes")
     rng = _r.Random(chk.seed)
     cs = []
-    mixes = [list(m) for r in (1, 2, 3, 4) for m in itertools.combinations([2, 3, 4, 5], r)] + [[2, 6], [3, 7], [2, 4, 8]]
+    mixes = [list(m) for r in (1, 2, 3, 4) for m in itertools.combinations([2, 3, 4, 5], r)] + [[2, 6], [3, 7], [2, 4, 8]] \
+        + [[1, 2], [1, 3], [1, 2, 4]]          # singleton cliques (a vertex covered on its own) give motif size 1
     for mix in mixes:                       # every mixture of sizes incl. the non-adjacent ones ({2,4} {2,5} {3,5} {2,4,5} ...)
         for base in (0, 1):
             for rep in range(60 if thorough else 4):
